@@ -18,7 +18,7 @@ RULE = (
     "For each input x clock model x max_stack_depth: N = number of clock events of the run with an unreachable deadline; every expiry point k in 0..N is executed "
     "(timeout = k + 0.5 on the virtual clock) for ctparse_gen and ctparse.  Oracle at every k: no exception; stream is a prefix (value, span, production, score) of the "
     "no-deadline stream; ctparse returns a best element of that prefix or an empty result; after the clock passed the deadline at most 2 scorings of initial sequences, "
-    "at most R*L+2 scorings and R*L rule invocations happen (R rules, L longest match sequence) - independent of the number of candidate sequences; timeout=0 never "
+    "at most R*L+2 scorings and R*L rule invocations happen (R rules, L longest match sequence) and at most ONE partial parse is still expanded or emitted - independent of the number of candidate sequences; timeout=0 never "
     "consults the deadline and equals the unreachable-deadline run.  One evaluation = one (input, model, depth, k) run pair; non-trivial = expiry point at which the run "
     "is actually cut short (stream shorter than the full one or deadline raised); distinct by construction."
 )
@@ -115,6 +115,9 @@ class Env:
                     env.after["scorings"] += 1
                     if all(isinstance(r, int) for r in pp.rules):
                         env.after["initial_scorings"] += 1
+                    else:
+                        # a child of the partial parse that is being expanded: its trace minus the last rule names the parent
+                        env.after["elements"].add(tuple(pp.rules[:-1]))
                 return inner.score(txt, ts, pp)
 
             def score_final(self, txt, ts, pp, prod):
@@ -122,6 +125,7 @@ class Env:
                 c.tick()
                 if c.passed:
                     env.after["scorings"] += 1
+                    env.after["elements"].add(tuple(pp.rules))  # same key as its children use: expanding and then emitting one element counts once
                 return inner.score_final(txt, ts, pp, prod)
 
         return Counting()
@@ -130,7 +134,7 @@ class Env:
         """-> (stream observation or ctparse observation, stats, exception)"""
         cp, gen, m = lib()
         self.clock = VClock(mode)
-        self.after = {"scorings": 0, "initial_scorings": 0, "rules": 0}
+        self.after = {"scorings": 0, "initial_scorings": 0, "rules": 0, "elements": set()}
         if timeout not in (0, HUGE):
             # start_time is the first read (value 1); _tt raises when read - 1 > timeout
             self.clock.deadline = 1 + timeout
@@ -149,6 +153,7 @@ class Env:
                 out = None if r is None else ((obs(r.resolution), tuple(r.production) if r.production else None, r.score) if r.resolution is not None else "EMPTY")
         except Exception as e:  # noqa
             exc = e
+        self.after["elements"] = len(self.after["elements"])
         stats = dict(self.after, events=self.clock.now, reads=self.clock.reads, deadline_checks=self.clock.deadline_checks, passed=self.clock.passed)
         return out, stats, exc
 
@@ -256,6 +261,13 @@ def run_case(case):
             )
         if st["scorings"] > R * L + 2 or st["rules"] > R * L:
             v.append(viol(dict(sig, kind="unbounded_work_after_deadline", phase="any"), "{}: {} scorings and {} rule invocations after the deadline (bound R*L = {})".format(desc, st["scorings"], st["rules"], R * L)))
+        if st["elements"] > 1:
+            v.append(
+                viol(
+                    dict(sig, kind="unbounded_work_after_deadline", phase="production_loop"),
+                    "{}: {} different partial parses were still expanded or emitted after the deadline had passed (the parser must stop at the first check after the deadline, i.e. after finishing at most one)".format(desc, st["elements"]),
+                )
+            )
         if k >= N and (out != full or st["passed"] and False):
             v.append(viol(dict(sig, kind="deadline_beyond_run_cuts"), "{}: deadline after the last event still cut the stream".format(desc)))
     # single-result entry point at the same expiry point
@@ -275,5 +287,5 @@ def run_case(case):
         "o": "cut" if cut else "complete",
         "nt": cut,
         "v": v[:4],
-        "st": {"runs": 2, "max_initial_scorings_after_deadline": st["initial_scorings"], "max_scorings_after_deadline": st["scorings"], "max_rule_invocations_after_deadline": st["rules"]},
+        "st": {"runs": 2, "max_initial_scorings_after_deadline": st["initial_scorings"], "max_scorings_after_deadline": st["scorings"], "max_rule_invocations_after_deadline": st["rules"], "max_partial_parses_touched_after_deadline": st["elements"]},
     }
